@@ -35,7 +35,8 @@ def statement_templates(ctx: Ctx):
                         if sv is not None:
                             tmp = I.construct("BasicVar", [Const("tmp_1")], {}, 0, "BasicVar")
                             I.call_function(sv[1], [a, tmp], self_obj=a, owner=sv[0].name)
-                            st = a.fields.get("_statement")
+                            # the call it built: through the `statement` property (however the class stores it)
+                            st = I.getattr(a, "statement", a.cls) if py.resolve_property(a.cls, "statement") is not None else a.fields.get("_statement")
                             if isinstance(st, Obj):
                                 target = st
                                 rm = py.resolve_method(st.cls, "basic09_text")
@@ -226,6 +227,20 @@ def e4(ctx: Ctx):
         missing = [h for h in held if not any(q[: len(h)] == h for q in printed)]
         if missing and obj.cls in E4_EXCEPTIONS:
             missing = []
+        if missing:
+            # is part of the text produced by code the interpreter does not model (generator, unknown call)?  then the
+            # operand may well be printed there: no verdict
+            from .absint import Unknown as _Unk
+
+            from .absint import StrV as _StrV
+
+            def _opaque(p_) -> bool:
+                return isinstance(p_, _Unk) or (isinstance(p_, _StrV) and p_.lits is None and getattr(p_, "node", None) is None) or (isinstance(p_, tuple) and any(_opaque(q_) for q_ in p_))
+
+            opaque = [p_ for parts in rends for p_ in parts if _opaque(p_)]
+            if opaque or not rends or I.unknowns:
+                ctx.errors.append(AnalysisError("E4", key, f"part of the emitted text comes out of code the interpreter does not model ({opaque[0] if opaque else 'no rendering'})"))
+                continue
         ctx.ob(
             key,
             not missing,
